@@ -358,7 +358,7 @@ PROPS["C04"] = {
     "stub_pkgs": DEFAULT_STUBS + [STATS],
     "harnesses": [
         {"pkg": LQ, "func": "VerifH_C04_resume", "replay_tries": 3, "replay_timeout_s": 60, "opts": {"sleep_env": True, "map_order_all": False, "max_steps": 20000000, "max_wall_s": 900, "no_preempt": True},
-         "covers": ["in-flight-at-stop", "finished-before-stop", "killed", "stopped-gracefully", "unfinished-url", "second-run-stopped", "unparsable-row"]},
+         "covers": ["in-flight-at-stop", "finished-before-stop", "killed", "stopped-gracefully", "unfinished-url", "second-run-stopped", "unparsable-row", "time-between-freeze-and-stop"]},
         {"pkg": LQ, "func": "VerifH_C04_resume3", "thorough_only": True, "replay_tries": 3, "replay_timeout_s": 60, "opts": {"sleep_env": True, "map_order_all": False, "max_steps": 20000000, "max_wall_s": 1800, "no_preempt": True},
          "covers": ["in-flight-at-stop", "finished-before-stop", "killed", "stopped-gracefully", "unfinished-url", "second-run-stopped"]},
     ],
@@ -416,7 +416,7 @@ PROPS["C09"] = {
     "harnesses": [
         {"pkg": MD, "func": "VerifH_C09_query_canonical", "replay_repeat": 400, "covers": ["several-keys"]},
         {"pkg": MD, "func": "VerifH_C09_encode_query", "opts": {"max_steps": 20000000, "unwind": 10000}, "covers": ["well-formed-query", "escapes-in-query"]},
-        {"pkg": PRE, "func": "VerifH_C09_normalize", "opts": {"map_order_all": False}, "covers": ["accepted", "rejected", "relative", "fragment-stripped", "quotes-trimmed"]},
+        {"pkg": PRE, "func": "VerifH_C09_normalize", "opts": {"map_order_all": False}, "covers": ["accepted", "rejected", "relative", "fragment-stripped", "quotes-trimmed", "scheme-relative-under-https"]},
     ],
     "models": {k: v for k, v in URL_MODELS.items() if not k.endswith("models.URLToString")},
     "stub_pkgs": DEFAULT_STUBS + [STATS],
